@@ -156,6 +156,8 @@ def run_cases(ctx, cases, use_model=True, procs=1):
                 res.count('lanczos.with-projection')
         if case['part'] == 'arnoldi':
             res.count(f'arnoldi.which={case["which"]}')
+            res.count(f'arnoldi.num_ev={min(case["opts"]["num_ev"], 4)}{"+" if case["opts"]["num_ev"] >= 4 else ""}')
+            res.count('arnoldi.ritz-pairs-checked' if not info.get('skipped') and not info.get('raised') else 'arnoldi.skipped-orthogonality-lost-in-reference')
         if case['part'] == 'gmres':
             res.count(f'gmres.data={info.get("data")}')
         prop = [f for f in fails if f[0] == 'property']
